@@ -35,13 +35,14 @@ type CallSpec struct {
 	DirNs  int       `json:",omitempty"` // sub-second part added to the Dir's times (must be dropped on the wire)
 
 	// what S returns
-	ErrText string    `json:",omitempty"` // non-empty: S fails with this text
-	Plain   bool      `json:",omitempty"` // … as a plain Go error (else MessageRerror)
-	RQid    refwire.Q `json:",omitempty"`
-	RQids   int       `json:",omitempty"` // walk: number of qids returned
-	RN      int       `json:",omitempty"` // read/write: S returns min(RN, len it was given)
-	RU32    uint32    `json:",omitempty"` // iounit
-	RDir    refwire.D `json:",omitempty"`
+	ErrText  string    `json:",omitempty"` // non-empty: S fails with this text
+	Plain    bool      `json:",omitempty"` // … as a plain Go error (else MessageRerror)
+	ErrWithN bool      `json:",omitempty"` // read/write: S returns its error together with n > 0 (io.ReaderAt allows it); the caller must still get the error
+	RQid     refwire.Q `json:",omitempty"`
+	RQids    int       `json:",omitempty"` // walk: number of qids returned
+	RN       int       `json:",omitempty"` // read/write: S returns min(RN, len it was given)
+	RU32     uint32    `json:",omitempty"` // iounit
+	RDir     refwire.D `json:",omitempty"`
 }
 
 type SeqCase struct {
@@ -124,6 +125,11 @@ func readData(c *CallSpec, n int) []byte { return harn.Blob{N: n, K: byte(c.Fid)
 func (r *recorder) Read(ctx context.Context, fid p9p.Fid, p []byte, offset int64) (int, error) {
 	c := r.enter(&received{Method: "read", Fid: uint32(fid), Offset: offset, Len: len(p)})
 	if err := specErr(c); err != nil {
+		if c.ErrWithN && len(p) > 0 {
+			n := 1 + c.RN%len(p)
+			copy(p, readData(c, n))
+			return n, err
+		}
 		return 0, err
 	}
 	n := c.RN
@@ -136,6 +142,9 @@ func (r *recorder) Read(ctx context.Context, fid p9p.Fid, p []byte, offset int64
 func (r *recorder) Write(ctx context.Context, fid p9p.Fid, p []byte, offset int64) (int, error) {
 	c := r.enter(&received{Method: "write", Fid: uint32(fid), Offset: offset, Len: len(p), Data: append([]byte(nil), p...)})
 	if err := specErr(c); err != nil {
+		if c.ErrWithN && len(p) > 0 {
+			return 1 + c.RN%len(p), err
+		}
 		return 0, err
 	}
 	n := c.RN
@@ -232,6 +241,7 @@ func genCall(t *rapid.T, msize int) CallSpec {
 			c.Len = 0
 		}
 		c.RN = rapid.OneOf(rapid.Just(1<<30), rapid.IntRange(0, 8), rapid.IntRange(0, c.Len+1)).Draw(t, "rn")
+		c.ErrWithN = c.ErrText != "" && rapid.Bool().Draw(t, "errwithn")
 	case "open":
 		c.Mode = gen.U8().Draw(t, "mode")
 		c.RQid, c.RU32 = gen.Qid().Draw(t, "rqid"), gen.U32().Draw(t, "iounit")
@@ -489,6 +499,9 @@ func RunSeq(c SeqCase) harn.Result {
 		res.Classes = append(res.Classes, "m_"+cs.Method)
 		if cs.ErrText != "" {
 			res.Classes = append(res.Classes, "session_error")
+		}
+		if cs.ErrWithN && cs.Len > 0 {
+			res.Classes = append(res.Classes, "error_with_partial_count")
 		}
 		if (cs.Method == "read" && cs.Len > msize-11) || (cs.Method == "write" && cs.Len > msize-23) {
 			res.Classes = append(res.Classes, "clipped_to_msize")
